@@ -403,7 +403,7 @@ def pattern_of(obs, label):
             return "lazy-expand-inplace-on-locked"
         if m == "to_empty" and ok and hk == "params":
             return "params-module-_apply-on-locked"
-        if m == "__setitem__" and ok and hk == "lazy" and args and \
+        if m == "__setitem__" and ok and obs.get("rebound_under_lazy") and args and \
                 (isinstance(args[0], list) or (isinstance(args[0], str) and args[0].startswith("tensor(")) or args[0] == "range"):
             return "lazy-setitem-sequence-index-on-locked"
     if label == "member_cannot_unlock:unlocked" and m in UNLOCKERS and ok:
@@ -639,14 +639,17 @@ GENERIC = [
 ]
 # __setitem__ / __setattr__ / __delitem__ have positional-only style signatures: explicit presets
 SPECIAL = {
-    "__setitem__": [lambda c: ((c.absent, c.ones(c.bs)), {}), lambda c: ((c.leaf[0], c.ones(c.shape_of(c.leaf[0]))), {}),
-                    lambda c: ((0, c.twin()[0] if c.bs else c.twin()), {}), lambda c: (((c.node[0], c.absent) if c.node else (c.absent, "q"), c.ones(c.bs)), {}),
-                    lambda c: ((slice(None), c.twin(extra=True)), {}), lambda c: ((c.leaf[0], c.ones((7,))), {}),
+    "__setitem__": [lambda c: ((c.absent, c.ones(c.bs)), {}),
+                    lambda c: ((c.torch.arange(c.bs[0]) if c.bs else 0, c.twin()), {}),
+                    lambda c: ((0, c.twin()[0] if c.bs else c.twin()), {}),
+                    lambda c: (((c.node[0], c.absent) if c.node else (c.absent, "q"), c.ones(c.bs)), {}),
+                    lambda c: ((list(range(c.bs[0])) if c.bs else 0, c.twin()), {}),
+                    lambda c: ((slice(None), c.twin(extra=True)), {}),
+                    lambda c: ((c.leaf[0], c.ones(c.shape_of(c.leaf[0]))), {}),
+                    lambda c: ((c.leaf[0], c.ones((7,))), {}),
                     lambda c: ((c.node[0] if c.node else c.absent, {"u": c.ones(c.bs)}), {}),
                     lambda c: ((0, {c.absent: c.ones(c.bs[1:])}), {}),
                     lambda c: ((c.leaf[0], "text"), {}),
-                    lambda c: ((c.torch.arange(c.bs[0]) if c.bs else 0, c.twin()), {}),
-                    lambda c: ((list(range(c.bs[0])) if c.bs else 0, c.twin()), {}),
                     lambda c: ((c.torch.ones(c.bs[:1], dtype=c.torch.bool) if c.bs else 0, c.twin()), {}),
                     lambda c: ((range(c.bs[0]) if c.bs else 0, c.twin(extra=True)), {})],
     "__delitem__": [lambda c: ((c.leaf[0],), {}), lambda c: ((c.nested[0] if c.nested else c.absent,), {}), lambda c: ((c.absent,), {}),
@@ -771,6 +774,8 @@ def describe(x, depth=0):
         return f"tensor{tuple(x.shape)}:{str(x.dtype).replace('torch.', '')}"
     if isinstance(x, (str, int, float, bool, type(None))):
         return x
+    if isinstance(x, range):
+        return "range"
     if isinstance(x, (list, tuple)) and depth < 3:
         return [describe(y, depth + 1) for y in x]
     if isinstance(x, dict) and depth < 3:
@@ -814,7 +819,10 @@ def run_call(fixture, handle, method, variant, seed, keep=False):
         return obs
     try:
         h = handles[handle]
-        args, kwargs, how = synthesise(h, method, variant, rng, tmpdirs)
+        try:
+            args, kwargs, how = synthesise(h, method, variant, rng, tmpdirs)
+        except Exception as e:  # noqa: BLE001 -- a candidate that cannot be built for this handle (e.g. indexing an empty batch)
+            args, kwargs, how = None, None, "candidate-not-constructible:" + type(e).__name__
         if args is None:
             obs.update(status="unsynth", detail=how)
             return obs
@@ -853,6 +861,9 @@ def run_call(fixture, handle, method, variant, seed, keep=False):
         pb, pa = before.ptrs(), after.ptrs()
         pdiff = sorted(fmt_path(p) for p in pb if p in pa and pa[p] != pb[p] and p not in
                        {q for q in before.structure() if before.structure()[q] != after.structure().get(q)})
+        lazy_paths = [p for p, r in before.rows.items() if r[0] == "lazy"]
+        changed = [p for p in set(bs_) | set(as_) if bs_.get(p) != as_.get(p)]
+        obs["rebound_under_lazy"] = bool(changed) and all(any(p[:len(lp)] == lp and len(p) > len(lp) for lp in lazy_paths) for p in changed)
         obs.update(status="called", struct_diff=sdiff, key_diff=kdiff, unlocked=ldiff, ptr_diff=pdiff,
                    meta=meta, is_root_handle=(handle in roots) or handle in meta.get("unlock_roots", []), nodes=len(before.locks()),
                    handle_kind=kind_of(h))
@@ -908,7 +919,7 @@ def _judge(obs):
         out.append(("locked_frozen:structure", struct, dict(sig_base, effect=effect, inplace_kw=bool((obs.get("kwargs") or {}).get("inplace")) if isinstance(obs.get("kwargs"), dict) else False)))
     if obs["ptr_diff"] and not struct:
         out.append(("locked_frozen:storage-swapped", obs["ptr_diff"], dict(sig_base, effect="storage")))
-    if unl:
+    if unl and not struct:      # (with a structure change the lock state of the replaced part is a consequence of it)
         if obs["outcome"] == "ok":
             out.append(("member_cannot_unlock:unlocked", unl, dict(sig_base, effect="unlocked", handle_is_root=obs["is_root_handle"])))
         else:
